@@ -99,16 +99,16 @@ var props = []*core.Property{
 		notCovered: []string{"order/content independence as a behavioural fact for every document"},
 		rules:      []*core.Rule{ruleStackBalance, ruleQueryTables, ruleQueryDiscipline, ruleJSONNodes, ruleTokenGate, ruleParseResults, rulePools}}),
 	mk(pd{id: "C11", level: "other",
-		levelText:  "BOM table and order; BOM first, also when the HTML / XML sniffers fall back for a document without a declaration; every return of utf-8 is control dependent on utf8.Valid or the ASCII test; the ASCII class, tabulated over 256 bytes through the class table, is 7-bit and contains printable ASCII; the validated buffer is the input minus at most an incomplete final rune (FullRune-guarded); Latin fallback: C1 predicate table, flag monotone, verdict names.",
+		levelText:  "BOM table and order; BOM first, also when the HTML / XML sniffers fall back for a document without a declaration; every return of utf-8 is control dependent on utf8.Valid or the ASCII test; the ASCII class, tabulated over 256 bytes through the class table, is 7-bit and contains printable ASCII; the validated buffer is the input minus at most an incomplete final rune (FullRune-guarded); Latin fallback: C1 predicate table, flag monotone, verdict names; helpers never answer utf-8 without validation; a hand-decoded rune is an error only as (RuneError, width 1).",
 		technique:  "finite-domain tabulation through constant tables; control-dependence rules",
 		expl:       "decides the decision structure of the plain sniffer for every byte string",
 		notCovered: []string{"truthfulness for every byte string as a whole (utf8.Valid semantics are trusted)"},
 		rules:      []*core.Rule{ruleBOMTable, rulePlainReturns, ruleASCIIClass, ruleTrim, ruleLatin, ruleSnifferMap, ruleRuneError}}),
 	mk(pd{id: "C12", level: "other",
-		levelText:  "Sniffer map roles; the XML decoder has a usable CharsetReader before the first token; every returned label is lower-cased (XML: strings.ToLower; HTML: in-place ASCII lower-casing tabulated over 256 bytes, before any use); BOM dominates the meta prescan; utf-16* -> utf-8; pragma decision table over the prescan state equals WHATWG, per-tag state is reset.",
+		levelText:  "Sniffer map roles; the XML decoder has a usable CharsetReader before the first token; every returned label is lower-cased (XML: strings.ToLower; HTML: in-place ASCII lower-casing tabulated over 256 bytes, before any use); BOM dominates the meta prescan; utf-16* -> utf-8; pragma decision table over the prescan state equals WHATWG, per-tag state is reset; the pragma value scanner tests for an opening quote after skipping the blanks behind the equals sign.",
 		technique:  "typestate (field store before first token call); finite-domain tabulation; dominance rules",
 		expl:       "decides the label plumbing around the x/net tokenizer and encoding/xml",
-		notCovered: []string{"the WHATWG prescan as implemented by x/net/html", "quoting / whitespace variants inside the XML declaration"},
+		notCovered: []string{"the WHATWG prescan as implemented by x/net/html", "quoting / whitespace variants inside the XML declaration", "the rest of the pragma value scanner (end of a bare or quoted label) beyond the order of its steps"},
 		rules:      []*core.Rule{ruleSnifferMap, ruleDecoderTypestate, ruleLowerCase, ruleHTMLOrder, rulePragmaValue, ruleParams, ruleReader, ruleLimitSlice}}),
 	mk(pd{id: "C13", level: "other",
 		levelText:  "Line cutting agrees with the JSON truncation table (same order types); both detectors pass their own (header, limit) through it first; NDJSON lines are judged by the parsed length; thresholds tabulated (lines >= 2 and containers >= 1; fields >= 2 and records >= 2); csv reader: FieldsPerRecord untouched, detector's delimiter, EOF ends, any other error rejects.",
